@@ -1271,7 +1271,8 @@ def evaluate__from_datetime_functions(self: XPathFunction, context: ta.ContextTy
     if item is None:
         return []
     elif self.symbol.startswith('year'):
-        return item.year
+        # XSD 1.1: the lexical year '0000' is 1 BCE (stored as -1)
+        return item.year + 1 if item.year < 0 and self.parser.xsd_version == '1.1' else item.year
     elif self.symbol.startswith('month'):
         return item.month
     elif self.symbol.startswith('day'):
@@ -1316,7 +1317,8 @@ def evaluate__from_date_functions(self: XPathFunction, context: ta.ContextType =
     if item is None:
         return []
     elif self.symbol.startswith('year'):
-        return item.year
+        # XSD 1.1: the lexical year '0000' is 1 BCE (stored as -1)
+        return item.year + 1 if item.year < 0 and self.parser.xsd_version == '1.1' else item.year
     elif self.symbol.startswith('month'):
         return item.month
     elif self.symbol.startswith('day'):
